@@ -268,6 +268,11 @@ def family_L(r, renames=True):
         holed = [x for x in full if x != lo(r) + 77]
         out.append(make_decl(r, holed[128:] + holed[:128], salt=2, renames=renames,
                              tag={"family": "L", "kind": "8bit-one-hole"}))
+        # a late hole: the second run's index offset (200) is beyond the positive half of a signed 8-bit repr
+        # (seed C11-r6m2: the generated offset literal `200i8` trips a deny-by-default lint once it carries a user span)
+        holed2 = [x for x in full if x != lo(r) + 200]
+        out.append(make_decl(r, holed2[100:] + holed2[:100][::-1], salt=6, renames=renames,
+                             tag={"family": "L", "kind": "8bit-late-hole"}))
         return out
     g = [lo(r) + i for i in range(300)]
     out.append(make_decl(r, g[150:] + g[:150][::-1], salt=3, renames=renames, tag={"family": "L", "kind": "gapless300"}))
@@ -372,6 +377,29 @@ def family_R(r):
             vals = vals[:120]
         perm = vals[len(vals) // 2:] + vals[:len(vals) // 2][::-1]
         out.append(make_decl(r, perm, salt=20 + k, tag={"family": "R", "runs": len(EnumDecl(r, [Variant("X%d" % i, lit=str(v)) for i, v in enumerate(vals)]).runs())}))
+    return out
+
+
+def family_D(r, w, where="zero", min_n=3, renames=True):
+    """Dense shapes: every subset with >= min_n elements and at least one hole of a w-wide window - many short runs separated by
+    1..w-2 wide holes (what the windows of family F, which are far apart, never give: seed C01-r6m2 needs >= 3 runs, a later run
+    of length >= 2 and at most 4 unused values in between). where: 'zero' (straddling zero for signed reprs, from 0 for unsigned
+    ones), 'top' (ending at the upper limit), 'bottom' (starting at the lower limit)."""
+    if where == "zero":
+        base = -(w // 2) if REPRS[r][1] else 0
+    elif where == "top":
+        base = hi(r) - w + 1
+    else:
+        base = lo(r)
+    out = []
+    salt = 0
+    for mask in range(1, 1 << w):
+        vals = [base + i for i in range(w) if mask >> i & 1]
+        if len(vals) < min_n or vals[-1] - vals[0] + 1 == len(vals):
+            continue
+        perm = scramble(len(vals))
+        out.append(make_decl(r, [vals[j] for j in perm], salt=salt, renames=renames, tag={"family": "D(%d,%s)" % (w, where), "mask": mask}))
+        salt += 1
     return out
 
 
